@@ -71,7 +71,7 @@ func genC12(t *rapid.T) C12Case {
 	case "sockaddr":
 		c.Rec, c.Want = recgen.Sockaddr(t)
 	case "user":
-		c.Rec = recgen.UserRecord(t, rapid.SampledFrom([]uint16{recgen.USER_AUTH, recgen.USER_ACCT, recgen.CRED_ACQ, recgen.USER_LOGIN, recgen.SERVICE_ST, 1131, 2404}).Draw(t, "utype"))
+		c.Rec = recgen.UserRecord(t, rapid.SampledFrom([]uint16{recgen.CRED_DISP, recgen.USER_START, recgen.USER_END, recgen.USER_AUTH, recgen.USER_ACCT, recgen.CRED_ACQ, recgen.USER_LOGIN, recgen.SERVICE_ST, 1131, 2404}).Draw(t, "utype"))
 	case "plainhex":
 		// A plain (unquoted) token that merely looks like hex but is not the kernel's
 		// upper-case encoding must stay unchanged, also in fields that Data() decodes.
